@@ -286,6 +286,18 @@ def complex_add(document, cls, tags):
 
     document.add_element(cls, element)
 
+    # the class at hand can be a variant that carries the name of the member it
+    # is the type of. the element that is named after the type, which is what
+    # e.g. a header part refers to, has to be there in any case.
+    if complex_type_name != cls.get_type_name():
+        pref = cls.get_namespace_prefix(document.interface)
+        elements = document.get_schema_info(pref).elements
+        if not cls.get_type_name() in elements:
+            element = etree.Element(XSD('element'))
+            element.set('name', cls.get_type_name())
+            element.set('type', cls.get_type_name_ns(document.interface))
+            elements[cls.get_type_name()] = element
+
 
 def enum_add(document, cls, tags):
     simple_type = etree.Element(XSD('simpleType'))
